@@ -68,6 +68,15 @@ STATE_PAIRS = [
     ('api/a55_huge_hex_int.py', 'api/a57_huge_decimal_int.py'),
     ('api/a55_huge_hex_int.py', 'api/a58_huge_power.py'),
     ('api/a58_huge_power.py', 'api/a56_big_product.py'),
+    # names with a special meaning learned from one module (aliases of NamedTuple / TypedDict / dataclass) that are
+    # ordinary names in the next; class attribute annotation removal on
+    ('api/a62_alias_imports.py', 'api/a63_alias_names_ordinary.py', {'ra': True}),
+    ('api/a62_alias_imports.py', 'api/a63_alias_names_ordinary.py', {'ra': True}),
+    ('api/a15_annotations.py', 'api/a63_alias_names_ordinary.py', {'ra': True}),
+    # a module that needs the escaping fallback of the string printer, then one with ordinary non-ASCII text
+    ('api/a64_fstring_surrogate.py', 'api/a65_fstring_nonascii.py'),
+    ('api/a64_fstring_surrogate.py', 'api/a34_unicode_names.py'),
+    ('api/a64_fstring_surrogate.py', 'api/a12_fstring.py'),
 ]
 
 NAME_POOL = [
